@@ -737,6 +737,72 @@ def _conflicts(l2g, mult, sup, cm):
     return found[0], found[1]
 
 
+def _large_launch_oracle(ctx):
+    """the launch schedule of the dense assembler on a grid large enough for any blocking heuristic (> 4096 trial
+    elements), recorded with the kernels stubbed, under 1 thread and under all threads: one kernel call per colour of
+    the dual_to_range space, every call receives ALL trial elements in the order of domain.get_elements_by_color(),
+    and the sequence of calls does not depend on numba.get_num_threads() (the order in which contributions are added
+    to an entry of the result is fixed by this sequence)."""
+    import numpy as np
+    import numba
+    import bempp_cl.api as api
+    from bempp_cl.core import numba_kernels as nk
+    from vlib import meshgen as mg
+    res = Result()
+    V, E = mg.cube(19)          # 12 * 19^2 = 4332 elements
+    grid = api.Grid(V, E)
+    dp0 = api.function_space(grid, "DP", 0)
+    p1 = api.function_space(grid, "P", 1)
+    names = ["default_scalar_regular_kernel", "default_scalar_singular_kernel"]
+    saved = {n: getattr(nk, n) for n in names}
+    calls = []
+
+    def stub(test_grid_data, trial_grid_data, nshape_test, nshape_trial, test_elements, trial_elements, *rest):
+        calls.append((np.asarray(test_elements).astype(int).tolist(), np.asarray(trial_elements).astype(int).tolist()))
+    nthreads0 = numba.get_num_threads()
+    maxthreads = numba.config.NUMBA_NUM_THREADS
+    recorded = {}
+    try:
+        setattr(nk, names[0], stub)
+        setattr(nk, names[1], lambda *a: None)
+        for t in sorted({1, maxthreads}):
+            numba.set_num_threads(t)
+            for label, test, trial in (("dp0xp1", dp0, p1), ("p1xp1", p1, p1)):
+                calls.clear()
+                api.operators.boundary.laplace.single_layer(trial, test, test, assembler="dense").weak_form()
+                recorded[(label, t)] = [(list(a), list(b)) for a, b in calls]
+    finally:
+        numba.set_num_threads(nthreads0)
+        for n, f in saved.items():
+            setattr(nk, n, f)
+    for label, test, trial in (("dp0xp1", dp0, p1), ("p1xp1", p1, p1)):
+        tidx, tptr = test.get_elements_by_color()
+        tidx = np.asarray(tidx).astype(int).tolist()
+        expect_test = [tidx[tptr[c]:tptr[c + 1]] for c in range(len(tptr) - 1)]
+        expect_trial = np.asarray(trial.get_elements_by_color()[0]).astype(int).tolist()
+        for t in sorted({1, maxthreads}):
+            got = recorded[(label, t)]
+            res.case(("large-launch", label, t), nontrivial=True,
+                     sample=dict(kind="large-grid launch schedule", spaces=label, threads=t, elements=int(E.shape[1]),
+                                 kernel_calls=len(got)) if t == maxthreads else None)
+            if [g[0] for g in got] != expect_test or any(g[1] != expect_trial for g in got):
+                short = next((len(g[1]) for g in got if g[1] != expect_trial), None)
+                res.counterexample(
+                    "dense-launch-schedule-not-one-call-per-colour",
+                    f"dense single-layer assembly ({label}, {E.shape[1]} elements, {t} threads): {len(got)} kernel calls "
+                    f"for {len(expect_test)} colours; a call received {short} of {len(expect_trial)} trial elements: the order "
+                    f"in which contributions are added to a matrix entry is no longer the one the model fixes",
+                    spaces=label, threads=t, kernel_calls=len(got), colours=len(expect_test))
+        a, b = recorded[(label, 1)], recorded[(label, maxthreads)]
+        if a != b:
+            res.counterexample(
+                "dense-launch-schedule-depends-on-thread-count",
+                f"dense single-layer assembly ({label}, {E.shape[1]} elements): the sequence of kernel calls differs between 1 "
+                f"and {maxthreads} threads ({len(a)} vs {len(b)} calls): summation order, hence the bits of the result, "
+                f"depend on the thread count", spaces=label, calls_1_thread=len(a), calls_max_threads=len(b))
+    return res
+
+
 def oracle(ctx, deep=False):
     import numpy as np
     res = Result()
@@ -783,6 +849,7 @@ def oracle(ctx, deep=False):
     res.stats["artificial_dof_owned_failures"] = owned_fail
     res.stats["oracle_spaces"] = len(spaces)
     res.merge(_recorded_oracle(ctx, spaces, deep))
+    res.merge(_large_launch_oracle(ctx))
     _FOUND["n"] += len(res.counterexamples)
     tm = _thread_matrix(ctx, deep)
     _FOUND["n"] += len(tm.counterexamples)
